@@ -19,6 +19,14 @@ func post(s *Sim, r *req) resp {
 	if s == nil {
 		runtime.Goexit()
 	}
+	if !s.running.Load() {
+		// before the scheduler runs there is one goroutine only (the harness constructing its clients): a lock taken
+		// or a scheduling point met in a constructor of the library has nobody to wait for
+		switch r.kind {
+		case rLock, rUnlock, rRLock, rRUnlock, rYield:
+			return resp{}
+		}
+	}
 	if r.g == nil {
 		r.g = s.me()
 	}
